@@ -25,7 +25,7 @@ MC = "context.metrics.MetricsContext"
 def nested_uses(an: Analysis):
     smq = an.prog.cls(SM).qualname
     out = []
-    for fi in an.prog.functions.values():
+    for fi in an.prog.scan_functions():
         for n in fi.own_nodes():
             if isinstance(n, ast.Attribute) and n.attr == "_nested":
                 t = an.prog.expr_type(fi, n.value)
@@ -231,7 +231,7 @@ def check(an: Analysis) -> None:
         if not fresh:
             ob.fail(mf, b, "the merged view is computed in the scope's own store: nested values are folded into self._metrics (read()/metrics() then report nested records, repeated views fold them again)")
     smq = prog.cls(SM).qualname
-    for fi in prog.functions.values():
+    for fi in prog.scan_functions():
         for n in fi.own_nodes():
             tg = []
             if isinstance(n, (ast.Assign, ast.AugAssign, ast.Delete)):
